@@ -14,6 +14,8 @@ from pest.grammar import Choice
 from pest.grammar import Repeat
 from pest.grammar import Rule
 from pest.grammar.expressions import OptimizedChoiceRepeat
+from pest.grammar.rule import ATOMIC
+from pest.grammar.rule import COMPOUND
 from pest.grammar.rule import SILENT
 from pest.grammar.rule import SILENT_ATOMIC
 
@@ -27,6 +29,7 @@ from .optimizers.unroller import unroll
 
 OptimizerPass: TypeAlias = Callable[[Expression, Mapping[str, Rule]], Expression]
 OptimizerPassPredicate: TypeAlias = Callable[[Mapping[str, Rule]], bool]
+OptimizerRulePredicate: TypeAlias = Callable[[Rule, Mapping[str, Rule]], bool]
 
 
 class PassDirection(Enum):
@@ -50,6 +53,9 @@ class OptimizerStep:
         predicate: If not `None`, the predicate is called with the rules to
             be optimized as its only argument. The step will be skipped if the
             predicate returns `False`.
+        rule_predicate: If not `None`, the predicate is called with each rule
+            and the rules to be optimized. The step is not applied to rules
+            for which it returns `False`.
 
     """
 
@@ -58,11 +64,28 @@ class OptimizerStep:
     direction: PassDirection
     fixed_point: bool = False
     predicate: OptimizerPassPredicate | None = None
+    rule_predicate: OptimizerRulePredicate | None = None
+
+
+def _never_skips_trivia(rule: Rule, rules: Mapping[str, Rule]) -> bool:
+    """True if no implicit trivia can be matched inside `rule`'s own expression."""
+    return (
+        bool(rule.modifier & (ATOMIC | COMPOUND))
+        or rule.name in ("WHITESPACE", "COMMENT")
+        or not ("WHITESPACE" in rules or "COMMENT" in rules)
+    )
 
 
 DEFAULT_OPTIMIZER_PASSES = [
     OptimizerStep("unroll", unroll, PassDirection.POSTORDER),
-    OptimizerStep("skip", skip, PassDirection.PREORDER),
+    OptimizerStep(
+        "skip",
+        skip,
+        PassDirection.PREORDER,
+        # SkipUntil does not match implicit trivia between `!x` and `ANY` or
+        # between iterations.
+        rule_predicate=_never_skips_trivia,
+    ),
     OptimizerStep("inline built-in", inline_builtin, PassDirection.PREORDER),
     OptimizerStep("squash_choice", squash_choice, PassDirection.POSTORDER),
     OptimizerStep("inline silent", inline_silent_rules, PassDirection.POSTORDER),
@@ -95,7 +118,9 @@ class Optimizer:
                 continue
 
             for name, rule in rules.items():
-                # TODO: some passes should only be applied to atomic rules
+                if step.rule_predicate and not step.rule_predicate(rule, rules):
+                    continue
+
                 expr = rule.expression
 
                 if step.fixed_point:
